@@ -1,4 +1,5 @@
 #![allow(dead_code)]
+mod corpus;
 mod engines;
 mod kernel;
 mod models;
